@@ -6,7 +6,7 @@ from hypothesis import strategies as st
 from ECAgent.Core import Model
 from ECAgent.Environments import DiscreteWorld, GridWorld, LineWorld, PositionComponent
 from vf.engine import Violation, InvalidCase
-from vf.fixtures import check, expect_raises
+from vf.fixtures import check, expect_raises, wone_of
 
 PROPERTY = "C10"
 BUDGET = {"quick": 400, "thorough": 500}
@@ -112,7 +112,7 @@ def run_case(case):
 
 
 def strategy(tier):
-    ext = lambda n: st.one_of(st.just(0), st.integers(1, n))
+    ext = lambda n: wone_of(st.just(0), st.integers(1, n))
 
     @st.composite
     def case(draw):
@@ -124,7 +124,7 @@ def strategy(tier):
         else:
             w, h, d = draw(ext(9)), draw(ext(7)), draw(ext(5))
         c = [draw(st.integers(0, max(w, 1) - 1)), draw(st.integers(0, max(h, 1) - 1)), draw(st.integers(0, max(d, 1) - 1))]
-        r = draw(st.one_of(st.integers(0, 3), st.integers(0, 12)))
+        r = draw(wone_of(st.integers(0, 3), st.integers(0, 12)))
         frac = [draw(st.integers(0, 7)) for _ in range(3)]
         return {"kind": kind, "w": w, "h": h, "d": d, "c": c, "r": r, "frac": frac}
     return case()
